@@ -118,15 +118,23 @@ class MultiMachine(Machine):
                 ok = all(members[j]["type"] in ("xy", "indexed") for j in J) and len(set(fitlib.size_of(members[j]) for j in J)) == 1
                 if ok:
                     n = fitlib.size_of(members[J[0]])
-                    ops.append(["add_shared", {"fits": J if rng.random() < 0.7 or len(J) != k else "all", "axis": "y", "err": fitlib.gen_errval(rng, n, False),
-                                               "corr": rng.choice([0.0, 0.5, 1.0]), "name": "sh%d" % nsh}])
+                    axis = "x" if all(members[j]["type"] == "xy" for j in J) and rng.random() < 0.35 else "y"
+                    a = {"fits": J if rng.random() < 0.7 or len(J) != k else "all", "axis": axis, "err": fitlib.gen_errval(rng, n, False),
+                         "corr": rng.choice([0.0, 0.5, 1.0]), "name": "sh%d" % nsh}
+                    if rng.random() < 0.3:
+                        # a shared covariance matrix
+                        B = np.array([[rng.choice([-0.2, -0.1, 0.0, 0.1, 0.2]) for _ in range(2)] for _ in range(n)])
+                        M = B.dot(B.T) + np.diag([rng.choice([0.01, 0.02, 0.04]) for _ in range(n)])
+                        a["mat"] = np.round(0.5 * (M + M.T), 6).tolist()
+                    ops.append(["add_shared", a])
                     nsh += 1
             elif r < 0.63 and nsh:
                 ops.append(["toggle_shared", {"name": "sh%d" % rng.randrange(nsh), "enable": rng.random() < 0.4}])
             elif r < 0.68:
                 sp = members[i]
                 if sp["type"] in ("xy", "indexed"):
-                    ops.append(["add_error", {"at": rng.choice(["member", "multi"]), "fits": i, "axis": "y" if sp["type"] == "xy" else None,
+                    ax = None if sp["type"] != "xy" else ("x" if rng.random() < 0.3 else "y")
+                    ops.append(["add_error", {"at": rng.choice(["member", "multi"]), "fits": i, "axis": ax,
                                               "err": fitlib.gen_errval(rng, fitlib.size_of(sp), False), "corr": rng.choice([0.0, 0.3, 1.0]), "rel": rng.random() < 0.2, "name": None}])
             elif r < 0.78:
                 nm = rng.choice(allnames)
@@ -224,7 +232,9 @@ class MultiMachine(Machine):
             return True
 
         def joint_cost(with_det=True):
-            """Closed form for chi2 members joined by shared sources + the costs the other members report."""
+            """Closed form for chi2 members joined by shared sources + the costs the other members report.
+            V = Vy + Vx o (f' f'^T) on the concatenated data; Vy / Vx carry the members' own sources in the diagonal blocks and
+            every enabled shared source of that axis in the diagonal and off-diagonal blocks between the sharing members."""
             p = pvals()
             chi = [i for i, s in enumerate(sims) if s.ref.effective_cost_id().startswith("chi2")]
             offs = {}
@@ -232,15 +242,21 @@ class MultiMachine(Machine):
             for i in chi:
                 offs[i] = o
                 o += len(sims[i].ref.d)
-            V = np.zeros((o, o))
+            Vy = np.zeros((o, o))
+            Vx = np.zeros((o, o))
+            g = np.zeros(o)
             r = np.zeros(o)
             cc = 0.0
             for i in chi:
                 s = sims[i]
                 sub = [p[names.index(nm)] for nm in s.ref.par_names]
                 n = len(s.ref.d)
-                V[offs[i]:offs[i] + n, offs[i]:offs[i] + n] = s.ref.total_cov(sub)
-                r[offs[i]:offs[i] + n] = s.ref.d - s.ref.model(sub)
+                sl = slice(offs[i], offs[i] + n)
+                Vy[sl, sl] = s.ref.cov_axis(1, sub)
+                if s.ref.ftype == "xy":
+                    Vx[sl, sl] = s.ref.cov_axis(0, sub)
+                    g[sl] = s.ref.slope(sub)
+                r[sl] = s.ref.d - s.ref.model(sub)
                 cc += s.ref.constraint_cost(sub)
             for src, J in shared:
                 if not src.enabled:
@@ -249,7 +265,8 @@ class MultiMachine(Machine):
                     for b in J:
                         if a != b and a in offs and b in offs:
                             n = len(sims[a].ref.d)
-                            V[offs[a]:offs[a] + n, offs[b]:offs[b] + n] += src.cov(np.zeros(n))
+                            (Vx if src.axis == 0 else Vy)[offs[a]:offs[a] + n, offs[b]:offs[b] + n] += src.cov(np.zeros(n))
+            V = Vy + Vx * np.outer(g, g)
             ev = np.linalg.eigvalsh(0.5 * (V + V.T)) if V.size else np.array([1.0])
             if ev.min() <= 0 or ev.max() / ev.min() > 1e7:
                 return None  # joint covariance not positive definite / ill-conditioned: outside the property's domain
@@ -261,6 +278,9 @@ class MultiMachine(Machine):
                     c += float(s.fit.cost_function_value)
             c += cc + sum(k.cost(np.asarray(p)) for k in multi_constraints)
             return c
+
+        def x_involved():
+            return any(s.ref.ftype == "xy" and s.ref.has_enabled(0) for s in sims)
 
         def check_invariants(step, after):
             # I1
@@ -289,8 +309,10 @@ class MultiMachine(Machine):
                 if jc is None:
                     res.bump("cost_invariant_skipped_out_of_domain")
                     return
-                if not abs(mc - jc) <= 1e-8 * (abs(jc) + 1.0):
+                if not abs(mc - jc) <= (1e-6 if x_involved() else 1e-8) * (abs(jc) + 1.0):
                     tags = [after]
+                    if x_involved():
+                        tags.append("x-errors")
                     if any(s.ref.constraints for s in sims):
                         tags.append("member-constraint-with-shared-source")
                     viol("C11", "joint", "cost", "after %s the multi-fit cost is %.12g, the joint fit of the concatenated data with the shared block structure gives %.12g" % (
@@ -361,7 +383,7 @@ class MultiMachine(Machine):
                         rn = a["name"]
                     else:
                         rn = s.fit.add_error(a["axis"], **kw) if s.spec["type"] == "xy" else s.fit.add_error(**kw)
-                    src = RefSource(rn, 1, "simple", a["rel"], err=evn, corr=a["corr"])
+                    src = RefSource(rn, 0 if a["axis"] == "x" else 1, "simple", a["rel"], err=evn, corr=a["corr"])
                     s.ref.sources.append((src, "data"))
                     s.names.append(rn)
                     s.src_where.append("data")
@@ -381,15 +403,28 @@ class MultiMachine(Machine):
                     evn = np.ones(n) * ev if not isinstance(ev, list) else np.array(ev, dtype=float)
                     if evn.shape != (n,):
                         continue
-                    axis = "y"
-                    if any(sims[j].spec["type"] == "indexed" for j in J) and any(sims[j].spec["type"] == "xy" for j in J):
-                        axis = "y"
-                    multi.add_error(ev, fits=a["fits"], axis=(None if all(sims[j].spec["type"] == "indexed" for j in J) else axis), name=a["name"], correlation=a["corr"])
-                    src = RefSource(a["name"], 1, "simple", False, err=evn, corr=a["corr"])
+                    axis = a.get("axis", "y")
+                    if axis == "x" and any(sims[j].spec["type"] != "xy" for j in J):
+                        continue
+                    kax = None if all(sims[j].spec["type"] == "indexed" for j in J) else axis
+                    rax = 0 if axis == "x" else 1
+                    if a.get("mat") is not None:
+                        M = np.array(a["mat"], dtype=float)
+                        if M.shape != (n, n):
+                            continue
+                        multi.add_matrix_error(M, "cov", fits=a["fits"], axis=kax, name=a["name"])
+                        mk = lambda: RefSource(a["name"], rax, "matrix", False, mat=M, mtype="cov")
+                        res.probe("shared_matrix_source_added")
+                    else:
+                        multi.add_error(ev, fits=a["fits"], axis=kax, name=a["name"], correlation=a["corr"])
+                        mk = lambda: RefSource(a["name"], rax, "simple", False, err=evn, corr=a["corr"])
+                    src = mk()
                     for j in J:
-                        sims[j].ref.sources.append((RefSource(a["name"], 1, "simple", False, err=evn, corr=a["corr"]), "data"))
+                        sims[j].ref.sources.append((mk(), "data"))
                         sims[j].names.append(a["name"])
                         sims[j].src_where.append("data")
+                    if axis == "x":
+                        res.probe("shared_x_source_added")
                     shared.append((src, J))
                     after = "add_shared"
                     res.probe("shared_source_added")
